@@ -84,12 +84,18 @@ GCD(a, b) == IF b = 0 THEN a ELSE GCD(b, a % b)
 \* normalised rational, d > 0 ; the sign lives in the numerator
 RNorm(n, d) == LET g == GCD(Abs(n), d) IN <<n \div g, d \div g>>
 RAdd(p, q) == RNorm(p[1] * q[2] + q[1] * p[2], p[2] * q[2])
-RECURSIVE SumUpTo(_, _)
-SumUpTo(f, n) == IF n = 0 THEN 0 ELSE f[n] + SumUpTo(f, n - 1)
-Sum(f) == SumUpTo(f, Len(f))
-RECURSIVE RSumUpTo(_, _)
-RSumUpTo(f, n) == IF n = 0 THEN <<0, 1>> ELSE RAdd(f[n], RSumUpTo(f, n - 1))
-RSum(f) == RSumUpTo(f, Len(f))
+\* sums by balanced recursion (depth log n): long sums - 132 fold pairs for 12 folds - must not exhaust
+\* the Java stack of TLC's interpreter
+RECURSIVE SumRange(_, _, _)
+SumRange(f, lo, hi) == IF lo > hi THEN 0
+                       ELSE IF lo = hi THEN f[lo]
+                       ELSE LET mid == (lo + hi) \div 2 IN SumRange(f, lo, mid) + SumRange(f, mid + 1, hi)
+Sum(f) == SumRange(f, 1, Len(f))
+RECURSIVE RSumRange(_, _, _)
+RSumRange(f, lo, hi) == IF lo > hi THEN <<0, 1>>
+                        ELSE IF lo = hi THEN f[lo]
+                        ELSE LET mid == (lo + hi) \div 2 IN RAdd(RSumRange(f, lo, mid), RSumRange(f, mid + 1, hi))
+RSum(f) == RSumRange(f, 1, Len(f))
 Undefined == <<0, 0>>          \* NaN: pair absent from a partial RDM / undefined correlation
 
 Min2(a, b) == IF a < b THEN a ELSE b
